@@ -345,9 +345,22 @@ def shard_supersede(arg) -> E.Tally:
             if cand != full and len(sch.full_sched_to_fragz(cand)) == f:
                 alt[f] = cand
                 break
-    j = 0
+    # ... and pairs that differ only in their tail: the leading fragment(s) of A and B are identical
+    from mc import ctlsim
+
+    pairs = []
     for fa, A in sorted(scheds.items()):
         for fb, B in sorted(list(scheds.items()) + [(f, b) for f, b in alt.items()], key=lambda x: x[0]):
+            pairs.append((fa, A, fb, B))
+    for kind in ("T2", "T3"):
+        for va, vb in ((0, 1), (1, 0), (2, 5)):
+            A = {"zone_idx": "01", "schedule": ctlsim.make_tail_schedule("01", va, kind)}
+            B = {"zone_idx": "01", "schedule": ctlsim.make_tail_schedule("01", vb, kind)}
+            if int(kind[1]) <= maxf + 1:
+                pairs.append((int(kind[1]), A, int(kind[1]), B))
+    j = 0
+    for fa, A, fb, B in pairs:
+        if True:
             if B == A:
                 continue
             msgs_a = rp_packets_checked(t, "01", A, sch.full_sched_to_fragz(A))
